@@ -404,6 +404,26 @@ fn set_mutants(base: &MSet, ctx: &Ctx, foreign: &[MSeg]) -> Vec<Mutant> {
                 }
                 out.push(Mutant { family, what: format!("{lname}[{pos}] (seg#{}): {what}", s.id), set, touched: [s.id].into() });
             }
+            // forged twins: a later copy of the segment with one AS replaced by an AS that exists
+            // nowhere / with the entries reversed and filed in the other list
+            for i in 0..s.entries.len() {
+                let mut twin = s.clone();
+                twin.id = base.next_id();
+                twin.ts += 1000;
+                twin.entries[i].ia = *ctx.ias.last().unwrap();
+                let mut set = base.clone();
+                if is_core { set.cores.push(twin.clone()) } else { set.non_cores.push(twin.clone()) };
+                out.push(Mutant { family: "forged-twin", what: format!("extra later copy of {lname}[{pos}] (seg#{}) with the AS of entry {i} := {}", s.id, util::ia_str(twin.entries[i].ia)), set, touched: [twin.id].into() });
+            }
+            {
+                let mut twin = s.clone();
+                twin.id = base.next_id();
+                twin.ts += 1000;
+                twin.entries.reverse();
+                let mut set = base.clone();
+                if is_core { set.non_cores.push(twin.clone()) } else { set.cores.push(twin.clone()) };
+                out.push(Mutant { family: "forged-twin", what: format!("extra later copy of {lname}[{pos}] (seg#{}) with reversed entries in the other list", s.id), set, touched: [twin.id].into() });
+            }
             // the segment in both lists / in the wrong list
             let mut set = base.clone();
             let mut copy = s.clone();
@@ -647,7 +667,7 @@ impl Tally {
 }
 
 /// All oracles on one mutant. `rest_cache`: result of the set without the touched segments.
-fn judge(run: &vpc::Run, t: &mut Tally, topo_name: &str, src: u64, dst: u64, base_ifaces: &BTreeSet<Vec<(u64, u16)>>, m: &Mutant, rest_cache: &mut BTreeMap<BTreeSet<u32>, Option<BTreeSet<Vec<(u64, u16)>>>>) -> Option<Vec<Obs>> {
+fn judge(run: &vpc::Run, t: &mut Tally, topo_name: &str, src: u64, dst: u64, base_ifaces: &BTreeSet<Vec<(u64, u16)>>, m: &Mutant, rest_cache: &mut BTreeMap<BTreeSet<u32>, Option<BTreeMap<Vec<(u64, u16)>, Vec<u8>>>>) -> Option<Vec<Obs>> {
     t.mutants += 1;
     t.calls += 1;
     let r = run_set(&m.set, src, dst);
@@ -659,14 +679,17 @@ fn judge(run: &vpc::Run, t: &mut Tally, topo_name: &str, src: u64, dst: u64, bas
         let rest = rest_cache.entry(m.touched.clone()).or_insert_with(|| {
             t.calls += 1;
             match eval(&m.set.without(&m.touched), src, dst, true) {
-                Eval::Paths(p) => Some(iface_set(&p)),
+                Eval::Paths(p) => Some(p.iter().map(|o| (o.ifaces.clone(), o.fingerprint.clone())).collect()),
                 _ => None,
             }
         });
         if let Some(rest) = rest {
-            let lost: Vec<_> = rest.difference(&got).cloned().collect();
-            if !lost.is_empty() {
-                viol.push((format!("isolation:{}:path-of-untouched-segments-lost", m.family), format!("{} path(s) obtainable from the untouched segments alone disappear, e.g. {:?}", lost.len(), lost[0].iter().map(|(a, i)| format!("{}#{}", util::ia_str(*a), i)).collect::<Vec<_>>())));
+            let lost: Vec<_> = rest.iter().filter(|(k, _)| !got.contains(*k)).collect();
+            if let Some((l_if, l_fp)) = lost.first() {
+                // narrow cause: a returned path carries the fingerprint of the lost one (the fingerprint
+                // ignores ASes and travel direction), so filter_duplicates dropped the valid instance
+                let class = if obs.iter().any(|o| o.fingerprint == **l_fp) { "isolation:valid-path-displaced-by-path-with-equal-fingerprint".to_string() } else { format!("isolation:{}:path-of-untouched-segments-lost", m.family) };
+                viol.push((class, format!("{} path(s) obtainable from the untouched segments alone disappear, e.g. {:?}", lost.len(), l_if.iter().map(|(a, i)| format!("{}#{}", util::ia_str(*a), i)).collect::<Vec<_>>())));
             }
         }
         let effect = if got == *base_ifaces {
@@ -849,9 +872,10 @@ fn replay(file: &std::path::Path) -> ! {
         }
         if let Eval::Paths(rest) = eval(&set.without(&touched), src, dst, false) {
             println!("without the touched segments {touched:?}: {} paths", rest.len());
-            let lost: Vec<_> = iface_set(&rest).difference(&iface_set(obs)).cloned().collect();
-            for l in &lost {
-                bad.push(("isolation:path-of-untouched-segments-lost".into(), format!("{:?}", l.iter().map(|(a, i)| format!("{}#{}", util::ia_str(*a), i)).collect::<Vec<_>>())));
+            let got = iface_set(obs);
+            for r in rest.iter().filter(|r| !got.contains(&r.ifaces)) {
+                let class = if obs.iter().any(|o| o.fingerprint == r.fingerprint) { "isolation:valid-path-displaced-by-path-with-equal-fingerprint" } else { "isolation:path-of-untouched-segments-lost" };
+                bad.push((class.into(), format!("{:?}", r.ifaces.iter().map(|(a, i)| format!("{}#{}", util::ia_str(*a), i)).collect::<Vec<_>>())));
             }
         }
     }
@@ -894,13 +918,16 @@ pub fn run(args: &vpc::Args) -> ! {
     let mut total = Tally::default();
     let mut per = vec![];
     // one task per (topology, ordered pair)
+    let quick = run.tier == vpc::Tier::Quick;
     let explore_all = |topos: &[Topo], pairs: bool| -> Tally {
         let segs: Vec<refseg::RSegs> = topos.iter().map(|t| refseg::beacon(t, BASE_TS)).collect();
         let mut tasks = vec![];
         for (ti, t) in topos.iter().enumerate() {
             for src in 0..t.ases.len() {
                 for dst in 0..t.ases.len() {
-                    if src != dst {
+                    // quick tier: every 4th ordered pair of the 16-AS repository graph (240 pairs)
+                    let thin = quick && t.ases.len() > 8 && (src * t.ases.len() + dst) % 4 != 0;
+                    if src != dst && !thin {
                         tasks.push((ti, src, dst));
                     }
                 }
@@ -950,7 +977,7 @@ pub fn run(args: &vpc::Args) -> ! {
             "distinct_nontrivial": d.len(),
             "rule": "distinct (topology, pair, mutated segment set) whose returned interface-sequence set differs from the unmutated set's; evaluations = calls of the real combine()",
             "exhaustive": true,
-            "bound": format!("every single structural mutation (catalogue: truncate 0/1, reverse, delete/duplicate/swap entries, repeat an AS, foreign AS, every interface id := 0 / another id of the segment / 65535, both 0, swapped, all ids 0, AS MTU in {{0,1,65535,65536,67036,u32::MAX}}, ingress_mtu/peer_mtu 0/1/65535, ExpTime 0/255, peer entry dropped/duplicated/re-targeted/re-wired/invented, 63/64/100-entry chains, segment in both lists / wrong list / missing, foreign-leaf segments) of every lookup-plan set of every (topology, ordered pair) with n <= {max_n} ASes + {} curated shapes; every ordered PAIR of mutations (a second mutation applied to every single mutant) for n <= 2 and, if {pairs_max_n} >= 3, for n = 3 in the sequential numbering; scaling series 5/10/20/40 segments", cur.len()),
+            "bound": format!("every single structural mutation (catalogue: truncate 0/1, reverse, delete/duplicate/swap entries, repeat an AS, foreign AS, every interface id := 0 / another id of the segment / 65535, both 0, swapped, all ids 0, AS MTU in {{0,1,65535,65536,67036,u32::MAX}}, ingress_mtu/peer_mtu 0/1/65535, ExpTime 0/255, peer entry dropped/duplicated/re-targeted/re-wired/invented, 63/64/100-entry chains, segment in both lists / wrong list / missing, forged later twins (one AS replaced; entries reversed in the other list), foreign-leaf segments) of every lookup-plan set of every (topology, ordered pair) with n <= {max_n} ASes + {} curated shapes (quick tier: every 4th ordered pair of the 16-AS repository graph, all pairs of the others); {}; scaling series 5/10/20/40 segments", cur.len(), if pairs_max_n == 0 { "single mutations only in this tier".to_string() } else { "every ordered PAIR of mutations (a second mutation applied to every single mutant) for n <= 2 (both numberings) and n = 3 (sequential numbering)".to_string() }),
             "per_n": per,
             "largest_result_paths": total.max_paths,
             "fixed_budget_s": BUDGET.as_secs(),
